@@ -254,53 +254,82 @@ Definition check_wrap (c : wrap_case) : result :=
 
 (** *** group "pool": proxy.ServerPool.handle behind the wrapper
 
-    requests: (now, backend outcome); observed: (status, result, servers contacted) *)
-Record pool_case := { q_pol : policy; q_t0 : Z; q_reqs : list (Z * backend);
-                      q_obs : list (Z * string * Z) }.
+    requests: (now, backend outcome, stream body?) for a pool with the breaker and,
+    when [q_retry] > 0, a retry policy with that many attempts; observed per request:
+    (status, result, servers contacted, breaker state, stateID, window total) *)
+Record pool_case := { q_pol : policy; q_t0 : Z; q_retry : Z; q_reqs : list (Z * backend * bool);
+                      q_obs : list (Z * string * Z * Z * Z * Z) }.
 
-Definition ZSZ_eqb (a b : Z * string * Z) : bool :=
-  let '(a1, a2, a3) := a in let '(b1, b2, b3) := b in (a1 =? b1) && String.eqb a2 b2 && (a3 =? b3).
+Definition pobs_eqb (a b : Z * string * Z * Z * Z * Z) : bool :=
+  let '(a1, a2, a3, a4, a5, a6) := a in let '(b1, b2, b3, b4, b5, b6) := b in
+  (a1 =? b1) && String.eqb a2 b2 && (a3 =? b3) && (a4 =? b4) && (a5 =? b5) && (a6 =? b6).
 
-Fixpoint pool_run (pol : policy) (c : cb) (reqs : list (Z * backend)) : list (Z * string * Z) :=
+Fixpoint pool_run (pol : policy) (retry : Z) (c : cb) (reqs : list (Z * backend * bool))
+  : list (Z * string * Z * Z * Z * Z) :=
   match reqs with
   | [] => []
-  | (now, b) :: t =>
+  | (now, b, stream) :: t =>
       let '(r, c') := wrap_call pol now (backend_houtcome b) c in
       let '(status, res) := pool_result r b in
-      (status, res, wrap_handler_runs r) :: pool_run pol c' t
+      (status, res, pool_contacts retry stream r b, st_code (c_state c'), c_id c', win_total (c_win c'))
+        :: pool_run pol retry c' t
   end.
 
-(** the property on the proxy's own trace: the contract automaton [spec], replayed with one
-    admission and (iff admitted) one result per request, says which requests are
-    short-circuited; exactly those must answer 503 / shortCircuited with no server
-    contacted, all others must contact exactly one server and not be reported as
-    short-circuited. *)
-Fixpoint prop_pool_run (pol : policy) (s : spec) (reqs : list (Z * backend))
-         (obs : list (Z * string * Z)) : bool :=
+(** the property on the proxy's own trace, for EVERY request shape (buffered / stream body,
+    with / without retry): a request is one admission step of the contract checker, judged
+    with flag "some server was contacted", and - iff admitted - exactly one recording step
+    (failure iff the backend outcome was a failure) judged on the breaker's observed state
+    and stateID.  Hence: OPEN (or an exhausted HALF_OPEN) => no server contacted, and every
+    completed call is in the window exactly once (a missing or duplicated record moves the
+    observed state away from what the contract demands at the next threshold).  A request
+    that contacted no server must answer 503 / shortCircuited; one that did must not be
+    reported as short-circuited. *)
+Fixpoint prop_pool_run (pol : policy) (h : chk) (reqs : list (Z * backend * bool))
+         (obs : list (Z * string * Z * Z * Z * Z)) : bool :=
   match reqs, obs with
   | [], [] => true
-  | (now, b) :: t, (status, res, contacted) :: bt =>
-      let '(ok, s1) := sp_acquire pol now s in
-      if ok then
-        let err := match b with BOk _ => false | _ => true end in
-        let s2 := snd (sp_record pol now (s_id s1) (classify pol err 0) s1) in
-        negb (String.eqb res "shortCircuited") && (contacted =? 1) && prop_pool_run pol s2 t bt
-      else
-        (status =? 503) && String.eqb res "shortCircuited" && (contacted =? 0) && prop_pool_run pol s1 t bt
+  | (now, b, _) :: t, (status, res, contacted, s, i, _) :: bt =>
+      match st_of_code s with
+      | None => false
+      | Some s' =>
+          let admitted := 0 <? contacted in
+          let '(sa, ia) := expect_after_acquire pol now h admitted in
+          let ob1 := (admitted, sa, ia) in
+          let ok1 := chk_acquire pol now h ob1 in
+          let h1 := chk_next now (OAcq now) pol h ob1 in
+          if admitted then
+            let err := match b with BOk _ => false | _ => true end in
+            let '(ok2, h2) := chk_step pol (ORec now ia err 0) h1 (false, s', i) in
+            ok1 && ok2 && negb (String.eqb res "shortCircuited") && prop_pool_run pol h2 t bt
+          else
+            ok1 && (status =? 503) && String.eqb res "shortCircuited" && (contacted =? 0) &&
+            st_eqb s' sa && (i =? ia) && prop_pool_run pol h1 t bt
+      end
   | _, _ => false
   end.
 
-Definition q_has_result (r : string) (l : list (Z * string * Z)) : bool := existsb (fun '(_, x, _) => String.eqb x r) l.
+Fixpoint mono_reqs (t : Z) (l : list (Z * backend * bool)) : bool :=
+  match l with
+  | [] => true
+  | (n, _, _) :: r => (t <=? n) && mono_reqs n r
+  end.
 
-Definition explain_pool (c : pool_case) := pool_run (q_pol c) (cb_new (q_pol c) (q_t0 c)) (q_reqs c).
+Definition q_has_result (r : string) (l : list (Z * string * Z * Z * Z * Z)) : bool :=
+  existsb (fun '(_, x, _, _, _, _) => String.eqb x r) l.
+Definition q_has_stream (l : list (Z * backend * bool)) : bool := existsb (fun '(_, _, st) => st) l.
+
+Definition q_retries (c : pool_case) : bool := 0 <? q_retry c.
+
+Definition explain_pool (c : pool_case) := pool_run (q_pol c) (q_retry c) (cb_new (q_pol c) (q_t0 c)) (q_reqs c).
 
 Definition check_pool (c : pool_case) : result :=
-  (list_eqb ZSZ_eqb (explain_pool c) (q_obs c),
-   mono_calls (q_t0 c) (q_reqs c) && prop_pool_run (q_pol c) (sp_new (q_pol c) (q_t0 c)) (q_reqs c) (q_obs c),
+  (list_eqb pobs_eqb (explain_pool c) (q_obs c),
+   mono_reqs (q_t0 c) (q_reqs c) && prop_pool_run (q_pol c) (chk_init (q_t0 c)) (q_reqs c) (q_obs c),
    match q_reqs c with
    | [] => 0%N
    | _ => (1 + bN (q_has_result "shortCircuited" (q_obs c)) 1 + bN (q_has_result "failureCode" (q_obs c)) 2
-             + bN (q_has_result "serverError" (q_obs c)) 4)%N
+             + bN (q_has_result "serverError" (q_obs c)) 4 + bN (q_has_stream (q_reqs c)) 8
+             + bN (q_retries c) 16)%N
    end, 0%N).
 
 (** *** group "lin" (thorough tier): concurrent callers
